@@ -44,6 +44,7 @@ type metaEnv struct {
 	st    storage.Storage
 	db    database.Database
 	close func()
+	http  *metaHTTP // non-nil in the "http" stack: reads and writes go through the real HTTP handlers (meta_http.go)
 }
 
 // stack: "fs" (filesystem part store) or "sql" (SQL part store)
@@ -180,7 +181,12 @@ func metaOpen(dir string, stack string) (*metaEnv, error) {
 	if err := st.Start(ctx); err != nil {
 		return nil, err
 	}
-	return &metaEnv{st: st, db: db, close: func() { st.Stop(ctx); db.Close() }}, nil
+	env := &metaEnv{st: st, db: db, close: func() { st.Stop(ctx); db.Close() }}
+	if stack == "http" { // filesystem part store underneath; the engine talks to the real HTTP server
+		env.http = newMetaHTTP(st)
+		env.st = env.http
+	}
+	return env, nil
 }
 
 // ---- shadow: reference S3 semantics, written independently of the Gallina model ----
@@ -265,6 +271,7 @@ type metaRun struct {
 	tags     map[string]bool
 	taint    map[string]string // bucket/key -> known-finding suffix: reference model and pithos are known to diverge there
 	mut      map[string]int    // bucket/key -> number of successful mutations
+	afterOp  func(i int)       // hook after each op (the http stack lets a wall-clock second pass in some cases)
 	curKey   string            // bucket/key of the operation being executed
 	obs      map[string]*shVersion // bucket/key/version id -> first observation (C13)
 }
@@ -287,6 +294,16 @@ func (m *metaRun) failKf(class, detail, kf string) {
 	m.fails = append(m.fails, metaFail{class: class, detail: detail, kf: kf})
 }
 func (m *metaRun) mutated() { m.mut[m.curKey]++ }
+
+// a copy succeeded from a source the reference model does not have: when the SOURCE key is already known to
+// diverge from the reference model (known finding), the destination inherits that divergence (its content is
+// the diverged source's from now on); attribution still needs model output == implementation output
+func (m *metaRun) failCopySource(srcKey, detail string) {
+	if t := m.taint[srcKey]; t != "" && m.taint[m.curKey] == "" {
+		m.taint[m.curKey] = t
+	}
+	m.fail("copy", detail)
+}
 
 func (m *metaRun) nameVid(v string) string {
 	if v == "null" || v == "" {
@@ -899,7 +916,7 @@ func (m *metaRun) exec(line string) string {
 						src = ssb.current(f[2])
 					}
 					if src == nil || src.dm {
-						m.fail("copy", "copy succeeded although the source does not exist in the reference model")
+						m.failCopySource(f[1]+"/"+f[2], "copy succeeded although the source does not exist in the reference model")
 					} else {
 						vid := "null"
 						if res.VersionID != nil {
@@ -965,7 +982,7 @@ func (m *metaRun) exec(line string) string {
 						src = ssb.current(f[2])
 					}
 					if src == nil || src.dm {
-						m.fail("copy", "UploadPartCopy succeeded although the source does not exist in the reference model")
+						m.failCopySource(f[1]+"/"+f[2], "UploadPartCopy succeeded although the source does not exist in the reference model")
 					} else if want, ok := metaSliceLenient(src.content, opts.Range); !ok {
 						m.fail("copy", "UploadPartCopy accepted an unsatisfiable range")
 					} else {
@@ -997,7 +1014,7 @@ func (m *metaRun) exec(line string) string {
 						src = ssb.current(f[2])
 					}
 					if src == nil || src.dm {
-						m.fail("copy", "ranged copy succeeded although the source does not exist in the reference model")
+						m.failCopySource(f[1]+"/"+f[2], "ranged copy succeeded although the source does not exist in the reference model")
 					} else if want, ok := metaSliceLenient(src.content, opts.Range); !ok {
 						m.fail("copy", "ranged copy accepted an unsatisfiable range")
 					} else {
@@ -1017,6 +1034,9 @@ func (m *metaRun) exec(line string) string {
 		end := time.Now().Round(0).UnixNano()
 		m.windows = append(m.windows, [2]int64{start, end})
 		outs = append(outs, out)
+		if m.afterOp != nil {
+			m.afterOp(i)
+		}
 	}
 	return strings.Join(outs, " ")
 }
